@@ -55,7 +55,7 @@ def _classes(ctx):
     # attributes file present
     add("at", "sim", num=10 * n, ver=1 + s % 2, lf=1, at=1, slack=31, names=5, init=2, minlen=6, maxlen=6)
     # encryption / fix_key options on short histories
-    add("en", "sim", num=16 * n, ver=2 - s % 2, lf=1, slack=31, names=4, init=1, minlen=4, maxlen=4, enc=1)
+    add("en", "sim", num=16 * n, ver=2 - s % 2, lf=1, slack=31, names=4, init=1, minlen=4, maxlen=4, enc=2)
     # V3 / V4 starting archives
     for v in (3, 4):
         for lf in (1, 0):
@@ -63,25 +63,35 @@ def _classes(ctx):
     return cl
 
 
+def _gen_one(ctx, item):
+    k, (cls, env, num) = item
+    if num:
+        maxlen = int(env["C06_MAXLEN"])
+        rc, text = ctx.tlc(GEN, env=env, workers=1, timeout=900, simulate=f"num={num}", heap="2g",
+                           extra=("-depth", str(maxlen * 45 + 100), "-seed", str(ctx.seed * 7919 + k)), tag="gen-" + cls)
+    else:
+        rc, text = ctx.tlc(GEN, env=env, workers=1, timeout=1500, tag="gen-" + cls, heap="6g")
+    lines = [l.strip() for l in text.splitlines() if l.startswith('"CASE ')]
+    if not lines or (not num and "No error has been found" not in text):
+        raise core.ToolError(f"stage B: generator class {cls} failed rc={rc}:\n" + core._tail(text))
+    out = []
+    for i, r in enumerate(sorted(set(json.loads(l)[5:] for l in lines))):
+        if not num and not ctx.thorough and cls == "xa" and (i + ctx.seed) % 2:
+            continue            # quick: a seed-rotated half of the exhaustive enumeration (thorough: all of it)
+        c = json.loads(r)
+        c["id"] = f"{cls}{i}"
+        out.append(c)
+    return cls, out
+
+
 def generate(ctx):
+    """Stage (B): one TLC run of Gen_MpqHashTable per starting-archive class (run in parallel)."""
+    res = core._parallel_map(lambda it: _gen_one(ctx, it), list(enumerate(_classes(ctx))))
     cases = []
     per = {}
-    for cls, env, num in _classes(ctx):
-        if num:
-            maxlen = int(env["C06_MAXLEN"])
-            rc, text = ctx.tlc(GEN, env=env, workers=1, timeout=900, simulate=f"num={num}",
-                               extra=("-depth", str(maxlen * 45 + 100), "-seed", str(ctx.seed * 7919 + len(cases))), tag="gen-" + cls)
-        else:
-            rc, text = ctx.tlc(GEN, env=env, workers=1, timeout=1500, tag="gen-" + cls, heap="6g")
-        lines = [l.strip() for l in text.splitlines() if l.startswith('"CASE ')]
-        if not lines or (not num and "No error has been found" not in text):
-            raise core.ToolError(f"stage B: generator class {cls} failed rc={rc}:\n" + core._tail(text))
-        recs = sorted(set(json.loads(l)[5:] for l in lines))
-        for i, r in enumerate(recs):
-            c = json.loads(r)
-            c["id"] = f"{cls}{i}"
-            cases.append(c)
-        per[cls] = len(recs)
+    for cls, out in res:
+        per[cls] = len(out)
+        cases += out
     path = ctx.path("cases.ndjson")
     with open(path, "w") as f:
         for c in cases:
@@ -92,7 +102,7 @@ def generate(ctx):
 
 def expect_violation(ctx, cfg, what):
     """The implementation machine must violate the design invariant (TLC exhibits the defect on the model)."""
-    rc, text = ctx.tlc("MC_MpqHashTable", cfg, workers=4, timeout=300, tag="mc-" + cfg)
+    rc, text = ctx.tlc("MC_MpqHashTable", cfg, workers=2, timeout=300, tag="mc-" + cfg)
     if what not in text:
         raise core.ToolError(f"stage A: {cfg}: expected `{what}`:\n" + core._tail(text))
     adds = len(re.findall(r'^State \d+: <Begin\("add"', text, re.M))
@@ -101,33 +111,49 @@ def expect_violation(ctx, cfg, what):
     return adds
 
 
+def _norm(res):
+    """Observed result class in the vocabulary of the model (`lastres` of MpqHashTable)."""
+    res = str(res)
+    return "full" if res.startswith("err:") else res
+
+
 def sig(b):
+    """Class-level signature of a rejected event, computed from the case (Reset record = case attributes and
+    the predictions TLC made with the implementation machine of MpqHashTable) and the event kind."""
     r = b.get("reset") or {}
     rec = b.get("rec") or {}
     why = [x.strip().strip('"') for x in str(b.get("why", "")).split(",")]
-    s = {"ev": b.get("ev"), "ver": "v12" if r.get("ver", 1) <= 2 else "v34", "devs": r.get("devs", ""),
-         "why": why[0], "model": why[1] if len(why) > 1 else "", "res": str(rec.get("res", "")).split(":")[0]}
-    if b.get("ev") != "Read":
-        # a call that did not behave like a map operation: was that predicted by the model of the code?
-        preds = r.get("preds") or []
-        kinds = [p.get("kind") for p in preds]
-        if rec.get("res") == "hang":
-            s["model"] = "asmodel" if kinds and kinds[-1] == "hang" else "notmodel"
-        elif b.get("ev") == "Check":
-            ck = rec.get("ck", 0)
-            s["model"] = "asmodel" if 0 < ck <= len(kinds) and kinds[ck - 1] == "unopenable" else "notmodel"
+    s = {"ev": b.get("ev"), "ver": "v12" if r.get("ver", 1) <= 2 else "v34", "lf": bool(r.get("lf")), "devs": r.get("devs", ""),
+         "why": why[0], "model": why[1] if len(why) > 1 else "", "res": str(rec.get("res", "")).split(":")[0],
+         "msg": rec.get("msg", ""), "cause": (why[2].split(":")[-1] if len(why) > 2 else "")}
+    if b.get("ev") == "Check":
+        kinds = [p.get("kind") for p in (r.get("preds") or [])]
+        ck = rec.get("ck", 0)
+        s["model"] = "asmodel" if 0 < ck <= len(kinds) and kinds[ck - 1] == "unopenable" else "notmodel"
+    elif b.get("ev") != "Read":
+        # a call whose result no map operation explains: is it the result the model of the code predicted?
+        pres = r.get("pres") or []
+        oi = rec.get("oi", 0)
+        s["model"] = "asmodel" if 0 < oi <= len(pres) and pres[oi - 1] == _norm(rec.get("res")) else "notmodel"
     return s
 
 
 def run(ctx, cases_override=None):
     thorough = ctx.thorough
     giveup = ("InsertGiveUp",)
-    ctx.mc("MC_MpqHashTable", cfg="MC_MpqHashTable_T" if thorough else "MC_MpqHashTable", timeout=1500, allow_uncovered=giveup)
-    ctx.mc("MC_MpqHashTable", cfg="MC_MpqHashTable_L", timeout=600,
-           allow_uncovered=giveup + ("AddRefuseFull", "RenameRefuseDst"))
-    expect_violation(ctx, "MC_MpqHashTable_codeA", "Invariant NoDamage is violated")
-    expect_violation(ctx, "MC_MpqHashTable_codeB", "Invariant ProbeBounded is violated")
-    expect_violation(ctx, "MC_MpqHashTable_codeC", "Action property AtomicRefines is violated")
+    stage_a = [
+        lambda: ctx.mc("MC_MpqHashTable", cfg="MC_MpqHashTable_T" if thorough else "MC_MpqHashTable", timeout=1500,
+                       allow_uncovered=giveup, workers=4),
+        lambda: ctx.mc("MC_MpqHashTable", cfg="MC_MpqHashTable_LT" if thorough else "MC_MpqHashTable_L", timeout=900, workers=2,
+                       allow_uncovered=giveup + ("AddRefuseFull", "RenameRefuseDst")),
+        lambda: expect_violation(ctx, "MC_MpqHashTable_codeA", "Invariant NoDamage is violated"),
+        lambda: expect_violation(ctx, "MC_MpqHashTable_codeB", "Invariant ProbeBounded is violated"),
+        lambda: expect_violation(ctx, "MC_MpqHashTable_codeC", "Action property AtomicRefines is violated"),
+    ]
+    # stage A runs concurrently with generation, build and replay; it is joined before the verdict
+    import concurrent.futures as cf
+    pool = cf.ThreadPoolExecutor(max_workers=len(stage_a) + 1)
+    futs = [pool.submit(f) for f in stage_a]
     if cases_override:
         cases_path = cases_override
         cases = [json.loads(l) for l in open(cases_path)]
@@ -136,6 +162,9 @@ def run(ctx, cases_override=None):
         cases_path, cases, per = generate(ctx)
     binary = ctx.build("c06")
     trace = ctx.harness(binary, cases_path, timeout=1500)
+    for f in futs:
+        f.result()
+    pool.shutdown()
     res = ctx.validate("Trace_MpqMap", trace, timeout=900)
     # coverage numbers from what was actually replayed
     kinds = {}
